@@ -7,17 +7,17 @@ import sys
 HERE = os.path.dirname(os.path.dirname(os.path.abspath(__file__)))
 
 CHECKS = {
-    "C01": ("valid_matching invariant over Aligner.align candidates (ladders of seed peaks, junction and centre-triple cases), one Aligner reused over a molecule and its fragments, rows out of the unit-level first/second-pass join, every record of every file of every mode and every dispatched candidate; CLI sample equal to in-process",
+    "C01": ("valid_matching invariant over Aligner.align candidates (ladders of seed peaks, junction and centre-triple cases), one Aligner reused over a molecule and its fragments, rows out of the unit-level first/second-pass join, every record of every file of every mode and every dispatched candidate; CLI sample equal to in-process; a 33 000-36 000-label reference (label numbers above 32 767)",
             "property-based testing (Hypothesis): invariant recomputed from file text and harness maps; CLI differential"),
-    "C02": ("every record of every file of generated end-to-end runs (4 modes, both strands, second-pass records, offset queries) compared field by field with values recomputed from the CMAP text the harness wrote",
+    "C02": ("every record of every file of generated end-to-end runs (4 modes, both strands, second-pass records, offset queries) compared field by field with values recomputed from the CMAP text the harness wrote; a 33 000-36 000-label reference (label numbers above 32 767); a listed end label must be a label of the input map",
             "property-based testing (Hypothesis): invariant recomputed from raw inputs via independent parser"),
     "C04": ("every candidate, result row and Confidence cell of generated runs and of unit-level Aligner.align calls re-scored from harness maps, seed peak and the harness' copy of -sp/-dp/-su/-d; single-seed candidates tied to -ms/-bs through the C13 reference scan",
             "property-based testing (Hypothesis): recomputation + reference-model differential"),
-    "C05": ("one-record-per-query invariant over all files and modes; seed selection and best-candidate choice re-derived from the dispatched messages (tie-tolerant); 'best' mode query set and order compared with 'separate' mode",
+    "C05": ("one-record-per-query invariant over all files and modes; seed selection and best-candidate choice re-derived from the dispatched messages (tie-tolerant); 'best' mode query set and order compared with 'separate' mode; 70-200 reference maps with the query's pattern on both sides of map 64",
             "property-based testing (Hypothesis): invariant + reference selection over recorded candidates"),
     "C06": ("planted noise-free interior windows (15-45 labels, both strands, offsets, all modes) must be reported with exactly the planted pairs, '<k>M' and offsets <= 200 bp; self-similar windows discarded by a stated guard",
             "property-based testing (Hypothesis): metamorphic relation with known placement"),
-    "C07": ("degenerate-heavy inputs x 4 modes x the help-allowed parameter space run in-process and through the CLI; crashes bucketed by innermost repository frame, files parsed independently and read back with the project's XmapReader, unalignable queries removed and outputs compared",
+    "C07": ("degenerate-heavy inputs x 4 modes x the help-allowed parameter space run in-process and through the CLI; crashes bucketed by innermost repository frame, files parsed independently and read back with the project's XmapReader, unalignable queries removed and outputs compared; a 33 000-36 000-label reference with molecules below, across and above label 32 767",
             "property-based testing / fuzzing (Hypothesis): crash + format oracle, round-trip through project reader, metamorphic removal"),
     "C09": ("real CLI with real process pool: -c 1 unperturbed run vs -c in 1..16 with harness-owned completion orders (per-query delays injected by a launcher in the child) and a drawn PYTHONHASHSEED per run; inputs carry molecules whose two second-pass fragments score exactly alike; byte comparison of all files",
             "property-based testing (Hypothesis) with schedule perturbation: differential between schedules"),
@@ -25,27 +25,27 @@ CHECKS = {
             "property-based testing (Hypothesis): differential / metamorphic (restriction, permutation)"),
     "C03": ("exhaustive enumeration of every valid matching on an 8x8 (quick) / 10x10 (thorough) grid in both orientations, random matchings up to 300 pairs, and every record of generated end-to-end runs; HitEnum replayed from the first pair",
             "exhaustive small-domain enumeration + Hypothesis, round-trip (replay) oracle"),
-    "C08": ("the same generated input run in all four output modes; files compared between modes, joined records checked against their parts from file text, maxDifference boundary probed adaptively; AlignmentResults.resolve driven directly on a first-pass row and the second-pass row of its own fragment (joined => justified, subset of / equal to the valid union, parts not mutated)",
+    "C08": ("the same generated input run in all four output modes; files compared between modes, joined records checked against their parts from file text, maxDifference boundary probed adaptively; AlignmentResults.resolve driven directly on a first-pass row and the second-pass row of its own fragment (joined => justified, subset of / equal to the valid union, parts not mutated); unit-level join re-resolved at maxDifference = floor/ceil of the actual (one-decimal) reference gap",
             "property-based testing (Hypothesis): differential between output modes + structural relation joined/parts"),
     "C11": ("lattice inputs commensurate with both correlation resolutions run as given and with every query mirrored ('separate' mode); records compared under the mirror map when seeds correspond and the best candidate is unique; chainer/join score compared between ascending and descending query label numbers",
             "property-based testing (Hypothesis): metamorphic relation (mirror image)"),
-    "C15": ("segment lists produced from real label data by ladders of 2-8 seed peaks resolved as a list and pairwise; identity-level comparison of input and output positions, shared-label / crossing / removed-only-in-overlap clauses",
+    "C15": ("segment lists produced from real label data by ladders of 2-8 seed peaks resolved as a list and pairwise; identity-level comparison of input and output positions, shared-label / crossing / removed-only-in-overlap clauses; junction cases whose first segment runs over 250-520 labels",
             "property-based testing (Hypothesis): invariant over input/output of the resolver"),
-    "C17": ("generated CMAP text (shuffled rows, permuted/extra columns, label-less molecules, id filters) read with readQueries/readReferences and compared with the harness model; trim laws on every map; the reference and query maps a Program built from the command line holds (two files or one file in both roles, -rId/-qId)",
+    "C17": ("generated CMAP text (shuffled rows, permuted/extra columns, label-less molecules, id filters) read with readQueries/readReferences and compared with the harness model; trim laws on every map; the reference and query maps a Program built from the command line holds (two files or one file in both roles, -rId/-qId); block layouts of 10^5-row files in which a requested molecule's rows lie in distant blocks",
             "property-based testing (Hypothesis): reference model of the file text"),
-    "C18": ("every file of generated end-to-end runs and unit-level writer output read back with the project's reader and compared with the independently parsed text and the harness maps",
+    "C18": ("every file of generated end-to-end runs and unit-level writer output read back with the project's reader and compared with the independently parsed text and the harness maps; files written for a 33 000-36 000-label reference",
             "property-based testing (Hypothesis): round-trip writer -> reader"),
     "C19": ("generated pairs of alignment sets with colliding keys, duplicated query labels and derived second sets; key partition, bounds, reflexivity and swap symmetry of AlignmentComparer.compare; the compare_alignments program on generated simulation-data and XMAP files (a file against itself, two files in both orders)",
             "property-based testing (Hypothesis): algebraic laws"),
     "C20": ("generated sorted call lists around the blur distance within and across chromosomes through cluster_indels and write_indel_file (parsed back); generated maps/alignments/breakpoints through both indel finders with Length/type recomputed from harness maps",
             "property-based testing (Hypothesis): conservation laws + recomputation"),
-    "C12": ("exhaustive small label lattices (all multisets, seed offsets, strands, shifts), Hypothesis cases with planted boundary labels and sequences of calls on one engine (molecule, its fragments, other strand, other maps with the same ids) against an independent model of window, partition, order, offsets and mutual-nearest pairing; atheris campaign in the thorough tier",
+    "C12": ("exhaustive small label lattices (all multisets, seed offsets, strands, shifts), Hypothesis cases with planted boundary labels and sequences of calls on one engine (molecule, its fragments, other strand, other maps with the same ids) against an independent model of window, partition, order, offsets and mutual-nearest pairing; atheris campaign in the thorough tier; queries of 1000-4100 labels (more than 1024 / 2048 / 4096 reference labels in one window)",
             "exhaustive small-domain enumeration + Hypothesis, reference model"),
     "C13": ("exhaustive enumeration of all score sequences up to length 6 (quick) / 8 (thorough) over {-3..3} x 20 threshold pairs plus Hypothesis-generated long realistic sequences, each compared with a reference scan written from the statement and with the statement's validity clauses",
             "exhaustive small-domain enumeration + Hypothesis, reference-model differential"),
     "C14": ("exhaustive enumeration of every pair of short segments with every overlap on 1 bp and 0.5 bp grids, Hypothesis-generated segment sets (<=8 quick / <=12 thorough, 10/3/1/0.5 bp grids) with brute-force enumeration of every admissible sequence, one chainer reused over several sets, larger sets against an independent DP; the minus-infinity rule asserted in both directions against the half-overlap rule recomputed from coordinates",
             "property-based testing (Hypothesis) with brute-force optimum oracle"),
-    "C16": ("exhaustive label/resolution/start/end grid and all bit vectors up to length 10 for blur, plus Hypothesis cases, against a reference model; peak selection against top-N multisets",
+    "C16": ("exhaustive label/resolution/start/end grid and all bit vectors up to length 10 for blur, plus Hypothesis cases, against a reference model; peak selection against top-N multisets; 40-520 correlations (up to ~3000 candidate seeds) with ties at the cut",
             "exhaustive small-domain enumeration + Hypothesis, reference model"),
 }
 
